@@ -2,6 +2,7 @@ import Driver.Proto
 import Verif.Spec.SvgPath
 import Verif.Spec.SvgHazard
 import Verif.Model.SvgPath
+import Verif.Model.SvgGuard
 /-! driver handlers for property C05 (ops `model.*`, `spec.*`, `trig.*`) -/
 namespace Verif.Driver.C05
 open Verif Verif.Driver Verif.Spec.SvgPath
@@ -81,9 +82,16 @@ def goodNumH : Handler := fun args => do
   let s ← argChars args 0
   .ok (boolBytes (Spec.SvgHazard.goodNum s))
 
+/-- `spec.c05.guards path` → `[scanGuard, noHazard]`: the decidable guards of `path_geometry_partial` -/
+def guardsH : Handler := fun args => do
+  let i ← argChars args 0
+  if !expsSmall i then .error "exponent out of the driver's range" else
+  .ok (listReply [boolBytes (Model.SvgGuard.scanGuard i),
+    boolBytes (Spec.SvgHazard.noHazard (Model.SvgGuard.mergeZ ((parse i).getD [])))])
+
 def handlers : List (String × Handler) :=
   [("model.c05.shorten", shortenH), ("model.c05.number", numberH), ("model.c05.fmtg", fmtgH),
    ("spec.c05.holds", holdsH), ("spec.c05.segs", segsH), ("spec.c05.lex", lexH),
-   ("spec.c05.goodnum", goodNumH)]
+   ("spec.c05.goodnum", goodNumH), ("spec.c05.guards", guardsH)]
 
 end Verif.Driver.C05
